@@ -634,6 +634,8 @@ def execute(sc, ctx):
             return
         model = "unexplained"
         for v in VARIANTS:
+            if v == "dcf-relative-to-parsed-file-dir" and sc["method"] != "parse_path_elsewhere":
+                continue  # only a file parsed from another directory can explain anything that way
             try:
                 alt = fold(sc, root, cwd, v, listing)[0]
             except Exception:
